@@ -3,6 +3,7 @@ from __future__ import annotations
 
 import ast
 import itertools
+import os
 
 import z3
 
@@ -17,6 +18,19 @@ from .stmt import StmtMixin
 from .values import *  # noqa: F403
 
 
+def loop_ids_of(fnode):
+    ids = {}
+
+    def rec(n):
+        for ch in ast.iter_child_nodes(n):
+            if isinstance(ch, (ast.For, ast.While)):
+                ids[id(ch)] = len(ids)
+            if not isinstance(ch, (ast.FunctionDef, ast.Lambda, ast.ClassDef)):
+                rec(ch)
+    rec(fnode)
+    return ids
+
+
 def case_label(v):
     if isinstance(v, (int, str, bool)) or v is None:
         return str(v)
@@ -24,6 +38,12 @@ def case_label(v):
     if lab:
         return lab
     return type(v).__name__ + (getattr(v, "kind", "") or "")
+
+
+def case_combos(c):
+    names = list(c.cases)
+    return [",".join(f"{k}={case_label(v)}" for k, v in zip(names, vals))
+            for vals in itertools.product(*[c.cases[n] for n in names])]
 
 
 class SpecFn:
@@ -112,6 +132,7 @@ class Verifier(Engine, ExprMixin, StmtMixin, CallMixin):
         self.cur_func = c.key
         self.cur_case = ",".join(f"{k}={case_label(v)}" for k, v in case.items())
         self.loop_counter = 0
+        self.loop_ids = loop_ids_of(fi.node)
         self.call_counter = {}
         self.loops_seen = set()
         self._param_names_used = set()
@@ -155,6 +176,19 @@ class Verifier(Engine, ExprMixin, StmtMixin, CallMixin):
             st.objs[o.oid][parts[-1]] = self.mk_param(path, Const(cv), st)
         case = dict(case, **dotted)
         self.case_consts = case
+        for (cname, cval), defs in getattr(c, "case_defs", {}).items():
+            if cname in case and case_label(case[cname]) == cval:
+                for (target, expr) in defs:
+                    val_ = self.spec_val(expr, st)
+                    parts = target.split(".")
+                    if len(parts) == 1:
+                        st.env[target] = val_
+                        self.param_vals[target] = val_
+                    else:
+                        o = st.env[parts[0]]
+                        for q in parts[1:-1]:
+                            o = st.objs[o.oid][q]
+                        st.objs[o.oid][parts[-1]] = val_
         for name, expr in c.lets.items():
             st.env[name] = self.spec_val(expr, st)
         for r in c.requires:
@@ -168,6 +202,8 @@ class Verifier(Engine, ExprMixin, StmtMixin, CallMixin):
                                     z3.BoolVal(True), c.key, fi.node.lineno, "C", "requires", case=self.cur_case))
         self.old = st.fork()
         self.old.env = dict(st.env)
+        for g, expr in c.ghost_init.items():
+            st.env[g] = self.spec_val(expr, st)
         if fi.is_generator:
             self.setup_generator(c, st)
         paths = self.exec_block(_strip_doc(fi.node.body), st)
@@ -227,6 +263,10 @@ class Verifier(Engine, ExprMixin, StmtMixin, CallMixin):
             # no clause allows this exception: the path must be dead
             self.oblig(st, f"no-raise@{oc.line}", z3.BoolVal(False), oc.line, label=oc.exc)
             return
+        if self.fi.is_generator and "_nyield" in st.env:
+            # rejected before anything is yielded
+            self.oblig(st, f"raise-after-yield@{oc.line}", self.to_int(st.env["_nyield"]) == 0, oc.line,
+                       label=f"{oc.exc} after a block was yielded")
         conds = []
         for rz in matching:
             e = rz.when if rz.when is not None else rz.only_if
@@ -259,8 +299,12 @@ class Verifier(Engine, ExprMixin, StmtMixin, CallMixin):
         self.obls = []
         names = list(c.cases)
         combos = [dict(zip(names, vals)) for vals in itertools.product(*[c.cases[n] for n in names])] or [{}]
+        flt = getattr(self, "case_filter", None) or os.environ.get("PVC_CASE_FILTER")
         try:
             for case in combos:
+                if flt and flt != ",".join(f"{k}={case_label(v)}" for k, v in case.items()) and \
+                        (getattr(self, "case_filter", None) or flt not in ",".join(f"{k}={case_label(v)}" for k, v in case.items())):
+                    continue
                 self.verify_case(c, case)
         except OutOfSubset as exc:
             return self.obls, ("out-of-subset", str(exc))
